@@ -11,7 +11,7 @@ Events are JSON lists:
     ["hasattr", prop, route, tbl]   hasattr(obj, prop)
     ["getattr3", prop, route, tbl]  getattr(obj, prop, <default>)
     ["import", module]              import periodictable.<module>
-    ["init", entry, tbl]            <entry>(table), entry in INIT_ENTRIES
+    ["init", entry, tbl]            <entry>(table), entry in INIT_ENTRIES; "<entry>+reload" calls <entry>(table, reload=True)
     ["calc", name, tbl]             a calculator call (CALCS)
     ["create", tbl]                 PeriodicTable(name) + mass.init + density.init   (C10)
     ["assign", prop, route, tbl]    obj.<prop> = sentinel                            (C10)
@@ -43,6 +43,8 @@ MODULES = ["nsf", "xsf", "covalent_radius", "crystal_structure", "magnetic_ff", 
            "formulas", "cromermann"]
 INIT_ENTRIES = ["mass.init", "density.init", "nsf.init", "xsf.init", "xsf.init_spectral_lines",
                 "covalent_radius.init", "crystal_structure.init", "magnetic_ff.init", "activation.init"]
+# the documented reload=True option: "how many times" a group is initialised must not matter either
+RELOAD_ENTRIES = [e + "+reload" for e in INIT_ENTRIES if e != "xsf.init_spectral_lines"]
 CALCS = ["neutron_sld", "neutron_scattering", "xray_sld", "volume", "activation", "list", "emission_table",
          "sld_table", "D2O_sld", "fasta", "xray_f0", "magnetic", "xray_n", "xray_N", "xray_all_fwd", "xray_all_rev"]
 # calculators that are events only (too slow or redundant for the digest of every history)
@@ -308,7 +310,7 @@ def abstract_state():
             else:
                 k = "absent"
             out.append(k[0])
-    props = ",".join(sorted(core.PUBLIC_TABLE.properties))
+    props = ",".join(sorted(set(core.PUBLIC_TABLE.properties)))
     # Imported submodules are deliberately not part of the state: importing has no effect on the
     # loaders other than through the class attributes above (an import with such a side effect
     # shows up there), and 2^9 import subsets would multiply the state space for nothing.
@@ -367,9 +369,13 @@ def do_event(w, ev):
         importlib.import_module("periodictable." + ev[1])
         return "ok"
     if kind == "init":
-        mod, fn = ev[1].split(".")
+        entry, _, opt = ev[1].partition("+")
+        mod, fn = entry.split(".")
         m = importlib.import_module("periodictable." + mod)
-        getattr(m, fn)(w.table(ev[2]))
+        if opt == "reload":
+            getattr(m, fn)(w.table(ev[2]), reload=True)
+        else:
+            getattr(m, fn)(w.table(ev[2]))
         return "ok"
     if kind == "calc":
         return calc(ev[1], w.table(ev[2]), ev[2] == "public")
